@@ -269,6 +269,15 @@ def _generate(rng, tier, index):
             prev = [h for h in history if h["op"] == "load"]
             history.append(json.loads(json.dumps(rng.choice(prev))))
     history = history[:8]
+    if "zcsim_pdt" in sc["packages"] and rng.random() < 0.7:
+        # the module that holds a component's datatype cannot be imported
+        # for a while (first load of the history), then it can: nothing the
+        # failed look-up left behind may change the later loads
+        history = [{"op": "load", "text": 0, "entry": "url", "inj": None,
+                    "overrides": [], "fault": None,
+                    "pkg_fault": {"zcsim_pdt": "pkg-import-error"}},
+                   {"op": "load", "text": 0, "entry": "url", "inj": None,
+                    "overrides": [], "fault": None}] + history[:6]
     return {"prop": ID, "schema_xml": sc["schema_xml"],
             "packages": sc["packages"], "pkgfiles": sc["pkgfiles"],
             "ctypes": ctypes, "texts": texts, "ops": history}
@@ -355,6 +364,7 @@ def _load(w, schema, plan, op, faults, name):
     store, top = _store_for(plan, op)
     w.store = store
     w.begin_op(name, faults)
+    w.pkg_faults = dict(op.get("pkg_fault") or {})
     box = [None]
 
     def fn():
@@ -373,6 +383,7 @@ def _load(w, schema, plan, op, faults, name):
               "calls": [ff.sim_calls if ff is not None else 0
                         for (_r, ff, _u) in w.resources],
               "fired": w.op_fired}
+    w.pkg_faults = {}
     w.end_op("ok" if o["ok"] else o["cls"])
     return o, box[0], counts
 
@@ -603,7 +614,7 @@ def execute(plan):
                 out["log"].append("step %d load: hist %s | fresh %s" % (
                     step, ops.brief(oh), ops.brief(of)))
                 if ch["fired"]:
-                    k = faults[0]["kind"]
+                    k = faults[0]["kind"] if faults else "pkg-import-error"
                     out["fired"][k] = out["fired"].get(k, 0) + 1
                 if op.get("inj") and not oh["ok"]:
                     k = "text:" + op["inj"]["kind"]
